@@ -290,8 +290,23 @@ class Ctx:
         if r == z3.unsat:
             self.obligations.append(Obligation(label, "unsat", None, note, time.time() - t0))
             return True
+        pin = []
+        if r == z3.sat and self.exp_args:
+            # exp is uninterpreted here, so a model may give it values the real function never takes: incremental
+            # linearisation (tangent / chord lemmas at the model's points, all true facts about exp) either refutes the
+            # model for good (-> unsat) or ends in a model whose exp values are the real ones to 1e-12 (pinned arguments)
+            r, pin, m_ref = self._refine_exp(neg)
+            if r == z3.unsat:
+                self.obligations.append(Obligation(label, "unsat", None, (note or "") + " [exp linearisation lemmas]", time.time() - t0))
+                return True
         if r == z3.sat:
-            m = self.solver.model()
+            if pin:
+                self.solver.push()
+                self.solver.add(*pin)
+                if self._check(neg, timeout=CHECK_TIMEOUT_MS) != z3.sat:  # cannot happen (just found sat); be safe
+                    self.solver.pop()
+                    pin = []
+            m = self.solver.model() if (pin or not self.exp_args) else m_ref
             # prefer a counterexample that violates by a margin (survives float replay)
             for slack in (1e-2, 1e-4, 1e-7):
                 try:
@@ -305,7 +320,10 @@ class Ctx:
                     break
             # ... and that stays away from the switching points of the if-then-else terms inside the property
             # (a model sitting exactly on such a point is decided by rounding in the float replay)
-            m = self._away_from_ite_boundaries(neg, m)
+            if not pin:
+                m = self._away_from_ite_boundaries(neg, m)
+            else:
+                self.solver.pop()
             self.obligations.append(Obligation(label, "sat", self.model_assignment(m), note or str(p)[:300], time.time() - t0))
             return False
         self.obligations.append(Obligation(label, "unknown", None, note, time.time() - t0))
@@ -339,6 +357,51 @@ class Ctx:
                     self.solver.pop()
         except z3.Z3Exception:
             return m
+
+    def _refine_exp(self, neg, rounds=6):
+        """returns (unsat, []) | (sat, pin-constraints of a model with real exp values) | (sat, []) when undecided"""
+        for _ in range(rounds):
+            m = self.solver.model()
+            pts = []
+            for a in self.exp_args:
+                v = m.eval(a, model_completion=True)
+                try:
+                    fr = Fraction(v.numerator_as_long(), v.denominator_as_long())
+                    ex = math.exp(float(fr))
+                except Exception:
+                    return z3.sat, [], m
+                if ex == 0.0 or ex == float("inf") or fr.denominator > 10 ** 40:
+                    return z3.sat, [], m
+                lo, hi = Fraction(ex) * (1 - Fraction(1, 10 ** 12)), Fraction(ex) * (1 + Fraction(1, 10 ** 12))
+                pts.append((a, fr, lo, hi))
+            pin = []
+            for a, fr, lo, hi in pts:
+                pin += [a == lift_num(fr), EXP(a) >= lift_num(lo), EXP(a) <= lift_num(hi)]
+            self.solver.push()
+            self.solver.add(*pin)
+            r = self._check(neg, timeout=CHECK_TIMEOUT_MS)
+            self.solver.pop()
+            if r == z3.sat:
+                return z3.sat, pin, m
+            # lemmas (kept: they are facts): tangent at each point from below, chords between known points from above
+            known = getattr(self, "_exp_pts", [])
+            for a, fr, lo, hi in pts:
+                if all(k[0] != fr for k in known):
+                    known.append((fr, lo, hi))
+            known.sort()
+            self._exp_pts = known
+            for a in self.exp_args:
+                y = EXP(a)
+                for fr, lo, hi in known:
+                    self.solver.add(y >= lift_num(lo) * (1 + a - lift_num(fr)))
+                for (p0, _, h0), (p1, _, h1) in zip(known, known[1:]):
+                    self.solver.add(z3.Implies(z3.And(a >= lift_num(p0), a <= lift_num(p1)), y <= lift_num(h0) + lift_num((h1 - h0) / (p1 - p0)) * (a - lift_num(p0))))
+            r = self._check(neg, timeout=CHECK_TIMEOUT_MS)
+            if r == z3.unsat:
+                return z3.unsat, [], None
+            if r != z3.sat:
+                return z3.sat, [], m  # lemmas made the query hard: the last model stands (undecided, replay will tell)
+        return z3.sat, [], self.solver.model()
 
     def check_abstracted(self, extra, timeout_ms):
         """Decide  PC /\\ extra  after replacing every application of the uninterpreted exp by a fresh real variable
